@@ -6,6 +6,7 @@ use super::{
 };
 
 use crate::io::{Fs};
+use crate::diagnostic::Emitter;
 use crate::error::{GatherErrorIteratorExt, ErrorReported};
 use crate::image::ColorFormat;
 
@@ -136,6 +137,10 @@ pub fn extract(
 
     let canonical_out_path = fs.canonicalize(out_path).map_err(|e| fs.emitter.emit(e))?;
 
+    // errors about an individual image name the ANM file the image comes from
+    let emitter = fs.emitter.get_chained(anm.binary_filename.as_deref().unwrap_or("<ANM file>"));
+    let emitter = &emitter;
+
     anm.entries.iter().map(|entry| {
         if entry.texture_data.is_none() {
             return Ok(());
@@ -144,11 +149,11 @@ pub fn extract(
         // tarbomb protection
         let full_path = canonical_out_path.join(&entry.path);
         let full_path = canonicalize_part_of_path_that_exists(full_path.as_ref()).map_err(|e| {
-            fs.emitter.emit(error!("while resolving '{}': {}", fs.display_path(&full_path), e))
+            emitter.emit(error!("while resolving '{}': {}", fs.display_path(&full_path), e))
         })?;
         let display_path = fs.display_path(&full_path);
         if full_path.strip_prefix(&canonical_out_path).is_err() {
-            return Err(fs.emitter.emit(error!(
+            return Err(emitter.emit(error!(
                 message("skipping '{}': outside of destination directory", display_path),
             )));
         }
@@ -158,11 +163,11 @@ pub fn extract(
         }
 
         let image = produce_image_from_entry(entry).map_err(|s| {
-            fs.emitter.emit(error!("skipping '{}': {}", display_path, s))
+            emitter.emit(error!("skipping '{}': {}", display_path, s))
         })?;
 
         image.save(full_path).map_err(|e| {
-            fs.emitter.emit(error!("while writing '{}': {}", display_path, e))
+            emitter.emit(error!("while writing '{}': {}", display_path, e))
         })?;
 
         println!("exported '{}'", display_path);
